@@ -62,7 +62,7 @@ def decode(point):
 
 def extras(rng):
     return {"hook_src": rng.choice(["config", "cli"]), "tracking": rng.random() < 0.7,
-            "old_tag": rng.choice([None, "1.2.0", "1.2.3"]), "ignore_vcs_tag": rng.random() < 0.12,
+            "old_tag": rng.choice([None, "1.2.0", "1.2.3", "1.3.0", "1.3.0"]), "ignore_vcs_tag": rng.random() < 0.12,
             "novcs": rng.random() < 0.06,
             "syntax": rng.choice(["toml", "cfg"])}
 
